@@ -283,7 +283,8 @@ def rule_makefeasible(chk, prog):
                  "solver[dim]->satisfy() before the loop moves on -- in the combined-sub-constraint branch both dimensions are satisfied "
                  "unconditionally; (b) after satisfy() the *whole* valid[dim] set is scanned for `unsatisfiable`: each flagged constraint "
                  "is un-flagged and makes the attempt fail; (c) a failed attempt deletes the solver, restores every saved position and "
-                 "removes exactly the newly added constraint; (d) positions are saved for every variable before each attempt", floor=5)
+                 "removes exactly the newly added constraint; (d) positions are saved for every variable before each attempt; (e) the "
+                 "sub-constraint cursor of every compound constraint is rewound before it is walked, in the combined branch too", floor=6)
     fn = prog.fn("cola::ConstrainedFDLayout::makeFeasible")
     g = CFG(fn)
     sats = [c for c in calls(fn) if c.get("cname") == "vpsc::IncSolver::satisfy"]
@@ -398,6 +399,51 @@ def rule_makefeasible(chk, prog):
         elif alt_push and g.must_precede([x["id"] for x in walk(lp[0].get("init") or {}) if x.get("id") in g.pos][:1], alt_push[0]["id"]) is not None:
             bad = "an attempt can start without the positions having been saved"
     (r.bad if bad else r.ok)("positions saved before each attempt", fn.loc(sv[0]) if sv else fn.where(), bad or "")
+    # (e) the sub-constraint cursor of a compound constraint is rewound before its sub-constraints are walked -- in BOTH branches: the same
+    # constraint object may already have been walked to its end by an earlier makeFeasible() (of this or another layout)
+    r.count()
+    rew = [c for c in calls(fn) if c.get("cname") == "cola::CompoundConstraint::markAllSubConstraintsAsInactive"]
+    walks = [c for c in calls(fn) if c.get("cname") in ("cola::CompoundConstraint::subConstraintsRemaining", "cola::CompoundConstraint::getCurrSubConstraintAlternatives")]
+    bad = None
+    if not rew:
+        bad = "the sub-constraint cursor is never rewound (markAllSubConstraintsAsInactive)"
+    elif not walks:
+        raise AnalysisBroken("makeFeasible: the walk over the sub-constraints was not found")
+    else:
+        main = [a for a in fn.ancestors(rew[0]) if a.get("k") == "WhileStmt"]
+        if not main:
+            bad = "the cursor is rewound outside the loop over the compound constraints"
+        else:
+            for w_ in walks:
+                if g.search([(g.loop_header(main[-1])[1], 0)], blocked=[c["id"] for c in rew], targets=[w_["id"]]) is not None:
+                    bad = bad or ("the walk at line %s can be reached in an iteration that has not rewound the constraint's cursor: a constraint that "
+                                  "an earlier makeFeasible() walked to its end contributes nothing the second time" % w_.get("l"))
+    (r.bad if bad else r.ok)("sub-constraint cursor rewound in both branches", fn.loc(rew[0]) if rew else fn.where(), bad or "")
+
+
+def rule_locks_projected(chk, prog):
+    """What moveTo publishes is the projection's result."""
+    r = chk.rule("PROJECTION-IS-FINAL", "ConstrainedFDLayout::moveTo: between project(vs, cs, coords) -- which solves and publishes all n positions "
+                 "(PROJECTION rule) -- and the end of the function nothing stores to `coords` again: locked / desired positions enter the "
+                 "projection as heavily weighted desired positions and must not be written over its result, or the published positions "
+                 "violate the constraints the locked nodes take part in, with nothing reported", floor=1)
+    fn = prog.fn("cola::ConstrainedFDLayout::moveTo")
+    g = CFG(fn)
+    pj = [c for c in calls(fn) if c.get("cname") == "cola::project"]
+    if not pj:
+        pj = [c for c in calls(fn) if str(c.get("cname", "")).endswith("::project") or str(c.get("cname", "")) == "project"]
+    if not pj:
+        raise AnalysisBroken("moveTo: the call to project() was not found")
+    coords_arg = norm(call_args(pj[0])[2]) if len(call_args(pj[0])) >= 3 else "coords"
+    r.count()
+    bad = None
+    for lhs, node, op in writes(fn):
+        base = norm(lhs).split("[")[0]
+        if base == coords_arg and node.get("id") in g.pos or (base == coords_arg and any(a.get("id") in g.pos for a in fn.ancestors(node))):
+            tgt = node["id"] if node.get("id") in g.pos else [a for a in fn.ancestors(node) if a.get("id") in g.pos][0]["id"]
+            if g.search([g.after(pj[0]["id"])], blocked=[], targets=[tgt]) is not None:
+                bad = bad or (node, "`%s` is stored to after the projection (line %s): the solver's feasible point is overwritten" % (norm(lhs), node.get("l")))
+    (r.bad if bad else r.ok)("no store to the projected positions", fn.loc(bad[0]) if bad else fn.loc(pj[0]), bad[1] if bad else "")
 
 
 def _from_zero(loop):
@@ -613,5 +659,6 @@ def run(chk):
     chk.guard(rule_creator, chk, prog)
     chk.guard(rule_projection, chk, prog)
     chk.guard(rule_makefeasible, chk, prog)
+    chk.guard(rule_locks_projected, chk, prog)
     chk.guard(rule_majorization_fresh, chk, prog)
     chk.guard(rule_sizes, chk, prog, cg)
